@@ -66,6 +66,9 @@ class RecProtocol(protocol.Protocol):
         self.made += 1
         self.scid = self.transport._scid
         self.side.on_sub_event(self, "made", None)
+        g = getattr(self.side.world, "greeter", None)
+        if g is not None:
+            g(self)
 
     def dataReceived(self, data):
         if self.lost:
